@@ -227,6 +227,17 @@ class Interp:
                     if acc is False:
                         return False
                 return acc
+            if isinstance(a, dict) and isinstance(b, dict) and (contains_sym(a) or contains_sym(b)):
+                if set(a.keys()) != set(b.keys()) or contains_sym(list(a.keys())):
+                    if contains_sym(list(a.keys())) or contains_sym(list(b.keys())):
+                        raise Unsupported("equality of dicts with symbolic keys")
+                    return False
+                acc = True
+                for k in a:
+                    acc = self.and_(acc, self.eq(a[k], b[k]))
+                    if acc is False:
+                        return False
+                return acc
             if contains_sym(a) or contains_sym(b):
                 if type(a) is not type(b):
                     return False
@@ -717,6 +728,20 @@ class Interp:
         if isinstance(key, Sym):
             raise Unsupported("symbolic key in item store")
         self.note_mutation(obj, "setitem %r" % (key,))
+        if isinstance(obj, dict) and obj.get("__name__") in __import__("sys").modules and \
+                getattr(__import__("sys").modules[obj["__name__"]], "__dict__", None) is obj:
+            # a store into a module namespace (add_commands): undone at the end of the path
+            had = key in obj
+            old = obj.get(key)
+
+            def undo(obj=obj, key=key, had=had, old=old):
+                if had:
+                    obj[key] = old
+                else:
+                    obj.pop(key, None)
+
+            core.cur().journal.append(undo)
+            self.shared_store_log.append((obj["__name__"], key))
         if isinstance(obj, (dict, list)):
             old_present = key in obj if isinstance(obj, dict) else True
             obj[key] = value
